@@ -563,13 +563,32 @@ static ASTNode *load_module_internal(const char *module_path, Environment *env, 
         return NULL;
     }
     
+    /* fopen() also succeeds on a directory (import "."); ftell() then reports
+     * LONG_MAX or -1 and the buffer below cannot be allocated. */
+    struct stat module_st;
+    if (fstat(fileno(file), &module_st) != 0 || !S_ISREG(module_st.st_mode)) {
+        fprintf(stderr, "Error: Module path '%s' is not a regular file\n", module_path);
+        fclose(file);
+        return NULL;
+    }
+
     fseek(file, 0, SEEK_END);
     long size = ftell(file);
     fseek(file, 0, SEEK_SET);
+    if (size < 0) {
+        fprintf(stderr, "Error: Could not determine size of module file '%s'\n", module_path);
+        fclose(file);
+        return NULL;
+    }
     
-    char *source = malloc(size + 1);
-    fread(source, 1, size, file);
-    source[size] = '\0';
+    char *source = malloc((size_t)size + 1);
+    if (!source) {
+        fprintf(stderr, "Error: Out of memory reading module file '%s'\n", module_path);
+        fclose(file);
+        return NULL;
+    }
+    size_t got = fread(source, 1, (size_t)size, file);
+    source[got] = '\0';
     fclose(file);
     
     /* Tokenize */
